@@ -378,7 +378,8 @@ def main(run):
                       outside="the convergence theorem and its constants; rounding; resolution conditions")
     cex = run.pmap(worker, scs)
     kindl.handle_cex(run, PID, cex, replay, cap=2)
-    pick = [s for s in scs if s["pid"] in ("P2", "P5")][:2]
+    cscs = kindl.base_scenarios("quick", 0, halos=False)
+    pick = [s for s in cscs if s["pid"] in ("P2", "P5")][:2]
     kindl.run_canaries(run, "vf.props.C01:canary_probe", CANARIES_L, pick)
     for (n, pt, w) in CANARIES_EXACT:
         which, r = results[("canary", n)]
